@@ -26,6 +26,8 @@ MODELS = {
     ("dup", "thorough"): "MC_Graph_dup_t.cfg",
     ("ver2", "quick"): "MC_Graph_ver2_q.cfg",
     ("ver2", "thorough"): "MC_Graph_ver2_t.cfg",
+    ("extern", "quick"): "MC_Graph_extern_q.cfg",
+    ("extern", "thorough"): "MC_Graph_extern_t.cfg",
 }
 
 
@@ -37,6 +39,11 @@ def replay(lib, tier, max_findings=300):
         raise ToolError(f"missing cfg {cfg}")
     outp, stats = tlc_cached(f"graph-{lib}-{tier}", "MC_Graph", cfg, workers=12,
                              timeout=3600 if tier == "thorough" else 900)
+    if lib == "extern":
+        # the code as found before 6a2e54e / 6159071 / 2764e40: TLC must refute the refinement
+        for n in ("found1", "found2"):
+            tlc_cached(f"graph-extern-{n}", "MC_Graph", f"MC_Graph_extern_{n}.cfg", workers=4, timeout=900,
+                       keep=("NOTHING",), expect_violation="RefinesAbs")
     build_harness()
     cmd = [hbin("replay"), "graph", "--lib", lib, "--data", os.path.join(HARNESS, "data"),
            "--max-findings", str(max_findings), "--threads", "14"]
@@ -185,7 +192,8 @@ def run_property(prop, tier, report):
     # shape: encode-relevant shapes (import-less package, repeated instantiation, type items,
     # anonymous compound tuple element), creation operations only
     # dup: versions of one package, exports of one instance sharing a function type, a compound result type
-    libs = ["core", "ver", "shape", "dup", "ver2"]
+    # extern: extern names that differ in case only, locator names, a name bound to a kind of item
+    libs = ["core", "ver", "shape", "dup", "ver2", "extern"]
     total_states = total_trans = 0
     summaries = {}
     samples = []
